@@ -6,6 +6,7 @@ CONSTANTS
     SrvKinds = {"connclose", "chclose"}
     Faults = {}
     ClientClose = TRUE
+    Compliant = FALSE
     Bug = {}
 SPECIFICATION Spec
 INVARIANTS Pairing NothingAfterClose Released NoStuckCaller SlotsLive OneTerminal
